@@ -4,6 +4,7 @@ package c01
 
 import (
 	"context"
+	"errors"
 	"fmt"
 	"strconv"
 
@@ -341,6 +342,14 @@ func RunS1On(st state.CoreState, multiNS bool, p Plan) (v hk.Verdict) {
 			want   model.ErrClass
 		)
 
+		// for write-through failures injected by the "backed-faulty" implementation: the model is rolled back
+		prevVal, prevInc, prevLog, prevCreated, hadCreated := m.Get(k), m.Incs[k], len(m.Log), created[k], false
+		if prevVal != nil {
+			prevVal = prevVal.Clone()
+		}
+
+		_, hadCreated = created[k]
+
 		switch op.K {
 		case "create":
 			r := hres.New(k.NS, k.Typ, k.ID, "c"+strconv.Itoa(i))
@@ -469,6 +478,40 @@ func RunS1On(st state.CoreState, multiNS bool, p Plan) (v hk.Verdict) {
 			}
 		case "list":
 			// covered by compareAll
+		}
+
+		if errors.Is(gotErr, sim.ErrFaultyBacking) {
+			// the write was rejected by the backing store: "every failed call leaves the state untouched"
+			if want != model.OK {
+				v.Failf("step %d (%s): the model rejects the call (%s) but it reached the backing store", i, what, want)
+
+				return v
+			}
+
+			if prevVal == nil {
+				delete(m.M, k)
+			} else {
+				m.M[k] = prevVal
+			}
+
+			m.Incs[k] = prevInc
+			m.Log = m.Log[:prevLog]
+
+			if hadCreated {
+				created[k] = prevCreated
+			} else {
+				delete(created, k)
+			}
+
+			v.Label("write-rejected-by-backing-store")
+
+			v.NonTrivial = true
+
+			if !compareAll(i, what+" (rejected by the backing store)") {
+				return v
+			}
+
+			continue
 		}
 
 		got := model.Classify(gotErr)
